@@ -179,7 +179,13 @@ pub(crate) fn translate_block(
                 | capstone::x86_insn::X86_INS_MOVDQA
                 | capstone::x86_insn::X86_INS_MOVDQU
                 | capstone::x86_insn::X86_INS_MOVNTI
-                | capstone::x86_insn::X86_INS_MOVUPS => semantics.mov(&mut instruction_graph),
+                | capstone::x86_insn::X86_INS_MOVUPS
+                    // moves to/from segment registers fall through to the
+                    // unsupported-instruction arm
+                    if !semantics.has_segment_register_operand()? =>
+                {
+                    semantics.mov(&mut instruction_graph)
+                }
                 capstone::x86_insn::X86_INS_MOVQ => semantics.movq(&mut instruction_graph),
                 capstone::x86_insn::X86_INS_MOVSB
                 | capstone::x86_insn::X86_INS_MOVSW
